@@ -619,7 +619,8 @@ Proof.
     unfold quarter, tri_pts, x;
     rewrite ?new_nodes_mid by assumption; rewrite ?new_nodes_corner by assumption;
     fold A B C;
-    destruct J0 as [-> | ->], J1 as [-> | ->], J2 as [-> | ->]; cbn [fst snd]; fold A B C;
+    destruct J0 as [E0|E0], J1 as [E1|E1], J2 as [E2|E2]; rewrite ?E0, ?E1, ?E2;
+    cbn [fst snd]; fold A B C;
     (split; [|split; [|split]]; auto with vom);
     destruct A as [[a1 a2] a3], B as [[b1 b2] b3], C as [[c1 c2] c3]; cbn; field.
 Qed.
